@@ -79,6 +79,17 @@ class C03(common.ModelProperty):
         cfg["max_universes"] = cfg["nu"] + 1
         return cfg
 
+    def may_be_rejected(self, st, op):
+        # giving a two-ended link a further end (from either side, or through
+        # Vertex(links=)): today accepted; a library that refused it would not
+        # break this property, as long as the refusal changes nothing
+        objs = st.model.objs
+        if op["op"] in ("add_vertex", "add_to_link"):
+            return objs.get(op["e"], {}).get("k") == "e"
+        if op["op"] == "mk_vertex" and op.get("links"):
+            return any(objs.get(l, {}).get("k") == "e" for l in op["links"])
+        return False
+
     def execute(self, st, op):
         out, v = super().execute(st, op)
         if out is not None and v is None:
